@@ -38,6 +38,14 @@ def check(chk):
     chk.judge(ok_lo and ok_hi and store_ok, 'C34.range', ft, 'Time._from_timestamp: 0 <= t < Time.DAY else ValueError',
               'a time of day outside one day is accepted: lower bound tested=%s, upper bound tested=%s' % (ok_lo, ok_hi))
     ti = m.func('Time.__init__')
+    # every other way to build a Time stores its value through the validated setter, or takes it from datetime.time fields (bounded by construction)
+    tc = m.cls('Time')
+    for f_ in [x for x in tc.body if isinstance(x, ast.FunctionDef) and x.name not in ('_from_timestamp', '_from_time')]:
+        direct = [w for w in ast.walk(f_) if isinstance(w, (ast.Assign, ast.AugAssign)) and
+                  any(src(t) == 'self.nanosecond_time' for t in (w.targets if isinstance(w, ast.Assign) else [w.target]))]
+        if f_.name == '_from_timestring' or direct:
+            chk.judge(not direct, 'C34.range', f_, 'Time.%s stores nanosecond_time only through _from_timestamp' % f_.name,
+                      'Time.%s assigns nanosecond_time directly, without the range check: Time(\'23:59:60\') and a fraction of more than nine digits give a value of a day or more' % f_.name)
     chk.judge('self._from_timestamp(value)' in src(ti) and 'isinstance(value, int)' in src(ti), 'C34.range', ti, 'integer initialiser goes through _from_timestamp', 'integer initialiser bypasses validation')
     try:
         day = folder.class_const('Time', 'DAY')
